@@ -182,8 +182,18 @@ def generate(rng, tier, idx, force=None):
         for t in tmpls:
             for sec in all_sections(t):
                 sec["args"].pop("type", None)  # a section-level 'memory' type would ignore the directory again
+    # Beaker memory without any cache directory: legal (nothing is written), and the only configuration in which the
+    # plug-in looks at the template's own module_directory
+    nodir = backend == "beaker-memory" and rng.random() < 0.35
+    if nodir:
+        for t in tmpls:
+            t["targs"].pop("type", None)
+            if t.get("page"):
+                t["page"]["args"].pop("type", None)
+            for sec in all_sections(t):
+                sec["args"].pop("type", None)
     return {"engine": NAME, "property": PROPERTY, "backend": backend, "tmpls": tmpls, "ops": ops, "faults": [], "base": base,
-            "separate_dirs": separate}
+            "separate_dirs": separate, "nodir": nodir}
 
 
 def all_sections(t):
@@ -247,6 +257,7 @@ def simplifications(trace):
         c = copy.deepcopy(trace)
         c["backend"] = "simrec"
         c["separate_dirs"] = False
+        c["nodir"] = False
         for t in c["tmpls"]:
             for sec in all_sections(t):
                 sec["args"].pop("type", None)
@@ -445,7 +456,10 @@ class Harness:
         elif b.startswith("beaker"):
             kw["cache_impl"] = "beaker"
             cache_args.setdefault("type", b.split("-")[1])
-            cache_args["dir"] = self.cache_dir
+            if self.trace.get("nodir") and b == "beaker-memory":
+                self.probe("beaker-without-directory")
+            else:
+                cache_args["dir"] = self.cache_dir
             if self.trace.get("separate_dirs") and ti is not None and b in ("beaker-file", "beaker-dbm"):
                 cache_args["dir"] = os.path.join(self.cache_dir, "t%d" % ti)
                 os.makedirs(cache_args["dir"], exist_ok=True)
@@ -716,6 +730,15 @@ class Harness:
             # The model cannot know which call failed without mirroring call order; re-derive from the tick log:
             self.resync_after_backend_error(ti, x, k, pk)
             return
+        except Exception as e:
+            # neither the body's own raise nor an injected backend failure: the render itself broke
+            kind = "ModuleTemplate" if t.get("modname") else "Template"
+            self.log.add("render-raised", ti, x, type(e).__name__)
+            self.flag("render-raised", "render of %s (%s, backend %s%s) raised %s: %s -- an uncached render of the same "
+                      "template succeeds" % (t["uri"], kind, self.backend, ", no cache directory" if self.trace.get("nodir") else "",
+                                             type(e).__name__, e), type(e).__name__ + ":" + kind)
+            self.abort = True
+            return
         finally:
             simcache.FAIL["get_or_create"] = 0
             self.raise_at = None
@@ -914,6 +937,8 @@ def execute(trace, root):
     for j, op in enumerate(trace["ops"]):
         h.cur_op = j
         h.do(j, op)
+        if getattr(h, "abort", False):
+            break  # a render broke outright: the model has nothing left to compare against
     seen = set()
     violations = []
     for sig, msg in h.viol:
